@@ -1,5 +1,6 @@
 import RainModel.Model.ResourceManager
 import RainModel.Lemmas.ResourceManager
+import RainModel.Model.WebseedCap
 /-!
 C17 — configured resource limits hold at all times and reservations balance.
 Property theorems only; helper lemmas live in `Lemmas/`.
@@ -40,5 +41,58 @@ example : grun (ginit 10)
 /-- The hypothesis is needed: releasing an amount twice reaches `panic("invalid release call")`
 in the un-instrumented machine. -/
 example : step (init 10) (.release 1) = .panic "invalid release call" := by decide
+
+
+/-! ### Web-seed source cap and configuration-dependent slicing -/
+section Webseed
+open Rain.WebseedCap
+
+/-- **webseed_caps.** For every configured cap `≥ 0` and every url-list, `newTorrent` keeps a
+prefix of the supported sources of length `min cap n` — in particular never more than the cap —
+and the slice expression does not panic. -/
+theorem webseed_caps (cap : Int) (hc : 0 ≤ cap) (urls : List Scheme) :
+    ∃ l, sourcesOf cap urls = some l ∧ (l.length : Int) ≤ cap ∧
+      l.length = min cap.toNat (urls.filter supported).length ∧
+      l = (urls.filter supported).take cap.toNat ∧ ∀ u ∈ l, supported u = true := by
+  unfold sourcesOf capSources sliceTo
+  generalize hws : urls.filter supported = ws
+  have hsup : ∀ u ∈ ws, supported u = true := by
+    intro u hu; rw [← hws] at hu; exact (List.mem_filter.mp hu).2
+  by_cases h : (ws.length : Int) > cap
+  · have h2 : ¬ (cap < 0 ∨ cap > ws.length) := by omega
+    simp only [h, h2, if_true, if_false]
+    refine ⟨_, rfl, ?_, ?_, rfl, ?_⟩
+    · simp [List.length_take]; omega
+    · simp [List.length_take]
+    · intro u hu; exact hsup u (List.mem_of_mem_take hu)
+  · simp only [h, if_false]
+    refine ⟨_, rfl, by omega, ?_, ?_, hsup⟩
+    · have : ws.length ≤ cap.toNat := by omega
+      omega
+    · have : ws.length ≤ cap.toNat := by omega
+      exact (List.take_of_length_le this).symm
+
+/-- **config_no_panic** (the configuration-dependent slice of the package-level scope): under
+`LegalConfig` the web-seed cap expression evaluates without a run-time panic for every url-list. -/
+theorem config_no_panic (c : Config) (h : LegalConfig c) (urls : List Scheme) :
+    sourcesOf c.webseedMaxSources urls ≠ none := by
+  obtain ⟨l, hl, _⟩ := webseed_caps c.webseedMaxSources h.1 urls
+  rw [hl]; simp
+
+/-- `LegalConfig` is needed: a negative cap panics for every url-list (`len > cap` always holds). -/
+example : sourcesOf (-1) [.http] = none := by decide
+
+/-- Non-vacuity: cap 5, seven supported and two unsupported entries. -/
+example : sourcesOf 5 [.http, .other, .https, .http, .http, .other, .https, .http, .http] =
+    some [.http, .https, .http, .http, .https] := by decide
+
+/-- The historical defect (fixed in the rain checkout): with the hard-coded `[:10]` a cap of 5 and
+7 sources panics, and a cap of 5 with 12 sources keeps 10 > 5.  Witnesses in `corpus/wscap/`. -/
+theorem webseed_cap_old_counterexample :
+    sourcesOfOld 5 (List.replicate 7 .http) = none ∧
+    (∃ l, sourcesOfOld 5 (List.replicate 12 .http) = some l ∧ l.length = 10) := by
+  refine ⟨by decide, List.replicate 10 .http, by decide, by decide⟩
+
+end Webseed
 
 end Rain.Props.C17
